@@ -15,7 +15,7 @@ from liesel.goose.epoch import EpochConfig, EpochType
 from liesel.goose.kernel_sequence import KernelSequence
 from simkit.core import EventLog, SutError, Violations, canon, sha
 
-RUN_CAP_S = 600
+RUN_CAP_S = 900
 NAMES = ["z", "a", "m", "b", "y", "k"]
 
 
